@@ -21,8 +21,8 @@ ASSUMPTIONS = [
     'QuadScheme1D/2D.integrate assert b-a > 1e-5 / 1e-7: sides start at 1e-4',
     'the Duffy maps multiply by a Jacobian of degree 1 (2-D) / 2 (3-D); "weights sum to the measure" is the degree-0 case '
     'of the stated exactness range and is judged when that range is non-empty (base degree >= 1 resp. >= 2)',
-    'box origins lie within 4 box lengths of 0 and the tolerance is 1e-12 + 40*eps*max|coordinate|/side (rounding of the '
-    'node coordinates themselves)',
+    'box origins lie within 4 box lengths of 0 in five cases out of six and anywhere in [-1e3, 1e3] in the sixth; the tolerance is '
+    '1e-12 + 40*eps*max|coordinate|/side (rounding of the node coordinates themselves)',
 ]
 REQUIRED = {t: ['ctor:interval', 'ctor:mirror1d', 'ctor:product2d', 'ctor:mirror2d', 'ctor:duffy2d', 'ctor:duffy2d-sym',
                 'ctor:product3d', 'ctor:mirror3d', 'ctor:duffy3d-id', 'ctor:duffy3d-id-sym', 'ctor:duffy3d-touch',
@@ -68,9 +68,11 @@ def side(rng):
 
 
 def origin(rng, h):
-    """Box origins within a few box lengths of 0: for |a| >> h the local coordinate (x-a)/h of a node stored as
-    the double a + h*p is itself only accurate to eps*|a|/h, which no scheme can undo."""
-    return rng.choice([0.0, -h / 2, -h, rng.uniform(-4, 4) * h, rng.uniform(-1, 1) * h])
+    """Box origins: mostly within a few box lengths of 0, sometimes far away (|a| up to 1e3, any side length). For |a| >> h
+    the local coordinate (x-a)/h of a node stored as the double a + h*p is itself only accurate to eps*|a|/h, which no scheme can
+    undo; the tolerance in judge() carries that term, so far boxes still expose gross errors (a measure of 0, a lost factor)."""
+    return rng.choice([0.0, -h / 2, -h, rng.uniform(-4, 4) * h, rng.uniform(-1, 1) * h,
+                       rng.choice([10.0, 50.0, -200.0, 1000.0, rng.uniform(-1e3, 1e3)])])
 
 
 class _Missing(Exception):
